@@ -538,7 +538,7 @@ theorem equalize_spec {ctx : Ctx} {G0 : List Group} (hc : CtxOK ctx G0)
         · -- the target group is already known under the device group's name
           have : (st.nod.lookup key == some ga.id) = true := by simp [h1]
           simp only [this, if_true]
-          refine ⟨S, rfl, rfl, rfl, hinv, Mono.refl _, fun _ => ?_, fun h => absurd h (by simp), fun _ => rfl,
+          refine ⟨S, rfl, rfl, rfl, hinv, Mono.refl _, fun _ => ?_, fun h => absurd h (by simp), by simp,
             GroupsLE.refl _, hla⟩
           rw [hlaEq]; exact hEP _ _ h1
         · have hne : (st.nod.lookup key == some ga.id) = false := by simpa using h1
@@ -558,7 +558,7 @@ theorem equalize_spec {ctx : Ctx} {G0 : List Group} (hc : CtxOK ctx G0)
               · apply epOk_groupPath
                 rw [hgr]; simp [gids]
           · -- the device group is rewritten to carry the target's addresses
-            have h2' : (st.needed.contains ga.id || (st.nod.lookup key).isSome) = false := by simpa using h2
+            have h2' : (st.needed.contains ga.id || (st.nod.lookup key).isSome) = false := Bool.eq_false_iff.mpr h2
             simp only [h2', Bool.false_eq_true, if_false] at habort ⊢
             rw [Bool.or_eq_false_iff] at h2'
             have hnn : ga.id ∉ st.needed := by
@@ -576,7 +576,7 @@ theorem equalize_spec {ctx : Ctx} {G0 : List Group} (hc : CtxOK ctx G0)
             rw [← hgr] at hcl
             have hgids : gids S'.groups = gids S.groups := by
               rw [hgr]; exact gids_setGroupAddrs _ _ _ fun g => (hfid g).1
-            refine ⟨S', hrun, hpol, hsvc, hcl.1, hcl.2, fun _ => ?_, fun h => absurd h (by simp), fun _ => rfl, ?_, ?_⟩
+            refine ⟨S', hrun, hpol, hsvc, hcl.1, hcl.2, fun _ => ?_, fun h => absurd h (by simp), by simp, ?_, ?_⟩
             · rw [hlaEq]; exact hEP _ _ lookup_cons_self
             · intro id h; rw [hgids]; exact h
             · exact epOk_mono (fun id h => by rw [hgids]; exact h) hla
